@@ -93,3 +93,10 @@ package capnp
 //@   partial
 //@   requires wfStruct(dst) && wfStruct(s) && dst.seg != nil
 //@   assert before "if err := dst.SetPtr(i, cp)" fielderr: err == nil
+//@   -- the data section is taken from the source's own data section and from nowhere else: what the
+//@   -- destination has beyond the source's size stays as allocated (zero), it is not filled from the
+//@   -- bytes that follow the source struct (the next element of a primitive list)
+//@   assert before "for i := uint16(0); i < dst.size.PointerCount; i++" datacopied: forall(0, int(dst.size.DataSize), func(j int) bool {
+//@     return implies(M(j) < M(s.size.DataSize), dst.seg.data[int(dst.off)+j] == oldbyte(s.seg.data, int(s.off)+j)) })
+//@   assert before "for i := uint16(0); i < dst.size.PointerCount; i++" databeyond: forall(0, int(dst.size.DataSize), func(j int) bool {
+//@     return implies(M(j) >= M(s.size.DataSize), dst.seg.data[int(dst.off)+j] == oldbyte(dst.seg.data, int(dst.off)+j)) })
